@@ -45,7 +45,8 @@ T3 == {"str", "int", "any"}
 Hdr(fe, gi, go, st) == [fe |-> fe, gi |-> gi, go |-> go, state |-> st]
 Plain(k, i, o, e) == NodeOp(k, i, o, e, "", "")
 \* typed-node declarations of the flow families: (in, out, emitted dynamic type)
-N1Flow == {Plain("n1", "str", "str", "str"), Plain("n1", "any", "int", "int"), Plain("n1", "int", "any", "str"), Plain("n1", "any", "any", "int")}
+N1Flow == {Plain("n1", "str", "str", "str"), Plain("n1", "any", "int", "int"), Plain("n1", "int", "any", "str"), Plain("n1", "any", "any", "int"),
+           Plain("n1", "any", "any", "nil")}      \* an interface-typed producer that really returns nil
 N1Wide == {Plain("n1", x[1], x[2], x[3]) : x \in {y \in Ty \X Ty \X Dyn : DynOK(y[3], y[2])}}
 
 N1Mid == {Plain("n1", "str", "iface", "impl"), Plain("n1", "any", "iface", "impl2"), Plain("n1", "iface", "impl", "impl"), Plain("n1", "impl", "any", "msa"),
@@ -64,7 +65,7 @@ Inits ==
     [] Fam = "flowio" ->  \* graph input type # graph output type, an interface-typed producer next to START (whose helper describes both types)
          {<<Hdr("graph", "str", "int", FALSE), <<Plain("n1", "str", "any", e), Plain("n2", "str", "int", "int"), PassOp("p1", "", "")>> \o tail
                                                   \o <<EdgeOp(START, "n1", ""), EdgeOp("n2", END, "")>>>> :
-             e \in {"str", "int"}, tail \in {<<>>, <<PassOp("p2", "", "")>>}}
+             e \in {"str", "int", "nil"}, tail \in {<<>>, <<PassOp("p2", "", "")>>}}
     [] Fam = "flow2" ->  \* two typed nodes, all six types (sampled)
          {<<Hdr("graph", gi, go, FALSE), <<n, m, PassOp("p1", "", ""), PassOp("p2", "", "")>>>> :
              gi \in Ty, go \in {"any", "str", "iface"}, n \in N1Mid, m \in N2Mid}
